@@ -194,6 +194,10 @@ def sym_eq(a, b):
         return False
     if isinstance(a, SOpaque) and isinstance(b, SOpaque) and a.kind == b.kind:
         return a.term == b.term
+    from .values import SArr
+
+    if isinstance(a, SArr) and isinstance(b, SArr):
+        return a.term == b.term
     if isinstance(a, SSeq) or isinstance(b, SSeq):
         s, o = (a, b) if isinstance(a, SSeq) else (b, a)
         if isinstance(o, SSeq):
@@ -539,7 +543,9 @@ def _norm_index(it, idx, n):
         i = z3.IntVal(idx) if idx >= 0 else n + z3.IntVal(idx)
     else:
         i0 = int_term(idx)
-        if it.ctx.pure:
+        if getattr(idx, "nonneg", False):
+            i = i0
+        elif it.ctx.pure:
             i = z3.If(i0 < 0, n + i0, i0)
         elif it.ctx.branch(i0 < 0):
             i = n + i0
